@@ -81,6 +81,9 @@ def _extra_body(e, kind):
         return BT_CUSTOM, struct.pack(e + "I", 32473) + _pad(b"c" * n)
     if kind == "unknown":
         return 0x00000ABC, _pad(b"unknown block body")
+    if kind == "custom_big":
+        # a 400 kB custom block (larger than any packet block)
+        return BT_CUSTOM, struct.pack(e + "I", 32473) + _pad(b"B" * 400001)
     if kind == "idb2":
         # a SECOND interface (no packet uses it) whose timestamps are in milliseconds with an offset
         return BT_IDB, struct.pack(e + "HHI", 1, 0, 0) + _opts(e, [(9, bytes([3])), (14, struct.pack(e + "q", 777))])
